@@ -12,6 +12,13 @@ import os
 import vlib
 
 PROPS = "Properties_C09"
+NDEBUG_TOO = True     # the library's normal build compiles assertions out: the same histories run against that build too
+
+
+def ndebug_case(case, model_line):
+    """histories whose expected outcome contains an assertion failure have no counterpart without assertions"""
+    return "ABORT" not in model_line
+
 # leaf functions / constants of bump_allocator.c are re-translated from the C source on every run (tools/translate_leaf.py ->
 # coq/gen/Leaf.v, Constants.v) and re-proved equal to the model's (coq/Properties_leaf_bump.v)
 EXTRA_PROPS = ["Properties_leaf_bump"]
